@@ -104,7 +104,7 @@ class PlateBox(BoxWorker):
             return
         d = out.value
         ok = isinstance(d, dict) and all(k in d for k in ("sx", "sy", "data", "level"))
-        ctx.oblige("post.result-structure", ok and isinstance(d["data"], list) and len(d["data"]) == self.nk, "P")
+        ctx.structure("post.result-structure", ok and isinstance(d["data"], list) and len(d["data"]) == self.nk)
         if not ok or not isinstance(d["data"], list) or len(d["data"]) != self.nk:
             return
         self.check_footprint(ctx, g, d, 0, 1, "post")
@@ -157,7 +157,7 @@ class SliceBox(BoxWorker):
             return
         v = out.value
         ok = isinstance(v, list) and len(v) == 4
-        ctx.oblige("post.result-structure", ok, "P")
+        ctx.structure("post.result-structure", ok)
         if not ok:
             return
         left, right = v[0], v[1]
